@@ -25,7 +25,7 @@ go test -count=1 -run "^($names)\$" $pkgs > /tmp/confirm_without.log 2>&1; rc_wi
 git apply $S/patch.diff || { echo "patch does not apply"; exit 2; }
 go build ./... > /tmp/confirm_build.log 2>&1; rc_build=$?
 rm -f $dests
-go test -count=1 ./... > /tmp/confirm_suite.log 2>&1; rc_suite=$?
+go test -count=1 $(go list -e ./... | grep -v /SEED) > /tmp/confirm_suite.log 2>&1; rc_suite=$?  # SEED/ holds demos declared in other packages
 place > /dev/null
 go test -count=1 -run "^($names)\$" $pkgs > /tmp/confirm_with.log 2>&1; rc_with=$?
 rm -f $dests; git checkout -q -- . ; git clean -fdq -e SEED
